@@ -10,3 +10,199 @@ package utils
 //@   safe type-assert
 //@ func parsePromQLFunc [C02]
 //@   safe type-assert
+
+// ---------------------------------------------------------------------------------------------
+// C04 / C12: the label-flow transfer functions. A Source describes which labels the series of one result branch
+// can carry; canHave is the query the checks ask (Source.CanHaveLabel). Label lists are sets kept as slices
+// without duplicates (nodup) - removeFromSlice drops only the first occurrence, so this is the representation
+// invariant every helper needs and re-establishes.
+//@ spec func in(s []string, x string) bool = contains(s, x)
+//@ spec func nodup(s []string) bool = forall i int, j int :: 0 <= i && i < j && j < len(s) ==> s[i] != s[j]
+
+//@ func appendToSlice [C04,C12]
+//@   option elemlinks
+//@   ensures len(result) >= len(dst) && (forall k int :: 0 <= k && k < len(dst) ==> result[k] == old(dst[k]) && dst[k] == old(dst[k]))
+//@   ensures forall i int :: len(dst) <= i && i < len(result) ==> in(values, result[i])
+//@   ensures forall k int :: 0 <= k && k < len(values) ==> in(result, values[k])
+//@   ensures old(nodup(dst)) ==> nodup(result)
+//@   ensures modifiesOnly(dst) && (cap(dst) == len(dst) ==> modifiesNone(dst))
+//@   ensures sameBase(result, dst) || fresh(result)
+//@   loop 1 invariant 0 <= iter1 && iter1 <= len(values) && modifiesOnly(old(dst)) && (old(cap(dst)) == old(len(dst)) ==> modifiesNone(old(dst)))
+//@   loop 1 invariant len(dst) >= old(len(dst)) && (forall k int :: 0 <= k && k < old(len(dst)) ==> dst[k] == old(dst[k]) && old(dst)[k] == old(dst[k]))
+//@   loop 1 invariant forall i int :: old(len(dst)) <= i && i < len(dst) ==> in(values, dst[i])
+//@   loop 1 invariant forall k int :: 0 <= k && k < iter1 ==> in(dst, values[k])
+//@   loop 1 invariant old(nodup(dst)) ==> nodup(dst)
+//@   loop 1 invariant sameBase(dst, old(dst)) || fresh(dst)
+
+//@ func removeFromSlice [C04,C12]
+//@   option elemlinks
+//@   requires nodup(sl)
+//@   ensures len(result) <= len(sl) && nodup(result)
+//@   ensures forall i int :: 0 <= i && i < len(result) ==> (exists k int :: 0 <= k && k < len(sl) && sl[k] == result[i])
+//@   ensures forall i int :: 0 <= i && i < len(result) ==> !in(s, result[i])
+//@   ensures forall k int :: 0 <= k && k < len(sl) && !in(s, sl[k]) ==> in(result, sl[k])
+//@   ensures modifiesNone(sl)
+//@   ensures result == sl || fresh(result)
+//@   loop 1 invariant 0 <= iter1 && iter1 <= len(s) && modifiesNone(old(sl))
+//@   loop 1 invariant len(sl) <= old(len(sl)) && nodup(sl) && (sl == old(sl) || fresh(sl))
+//@   loop 1 invariant forall i int :: 0 <= i && i < len(sl) ==> (exists k int :: 0 <= k && k < old(len(sl)) && old(sl)[k] == sl[i])
+//@   loop 1 invariant forall i int :: 0 <= i && i < len(sl) ==> (forall m int :: 0 <= m && m < iter1 ==> s[m] != sl[i])
+//@   loop 1 invariant forall k int :: 0 <= k && k < old(len(sl)) ==> (exists m int :: 0 <= m && m < iter1 && s[m] == old(sl)[k]) || in(sl, old(sl)[k])
+
+// canHave is what the checks ask of a source (Source.CanHaveLabel): can the series of this branch carry label x?
+//@ spec func canHave(s Source, x string) bool = !in(s.ExcludedLabels, x) && (in(s.IncludedLabels, x) || in(s.GuaranteedLabels, x) || !s.FixedLabels)
+//@ func Source.CanHaveLabel [C04,C12]
+//@   pure
+//@   ensures result <==> canHave(s, name)
+
+// C12: a join is declared impossible only because of a label Prometheus actually matches on - a label listed in
+// on(...), or for ignoring(...) / no modifier a label NOT listed there - that the one side can carry and the other cannot.
+//@ spec func matchedOn(vm *promParser.VectorMatching, x string) bool = vm.On ? in(vm.MatchingLabels, x) : !in(vm.MatchingLabels, x)
+//@ func canJoin [C12]
+//@   requires vm != nil
+//@   ensures !result0 ==> (exists x string :: matchedOn(vm, x) && canHave(ls, x) && !canHave(rs, x))
+//@   ensures vm.On && len(vm.MatchingLabels) == 0 ==> result0
+
+// Well-formed source: the three label lists are duplicate-free and do not share a backing array with one another
+// (appendToSlice may write into the spare capacity of the list it extends).
+//@ spec func sep(a []string, b []string) bool = cap(a) == 0 || cap(b) == 0 || !sameArray(a, b)
+//@ spec func wfS(s Source) bool = nodup(s.IncludedLabels) && nodup(s.ExcludedLabels) && nodup(s.GuaranteedLabels) &&
+//@      sep(s.IncludedLabels, s.ExcludedLabels) && sep(s.IncludedLabels, s.GuaranteedLabels) && sep(s.ExcludedLabels, s.GuaranteedLabels)
+//@ spec func sepS(s Source, names []string) bool = sep(names, s.IncludedLabels) && sep(names, s.ExcludedLabels) && sep(names, s.GuaranteedLabels)
+//@ spec func subset(a []string, b []string) bool = forall i int :: 0 <= i && i < len(a) ==> in(b, a[i])
+//@ spec func disjoint(a []string, b []string) bool = forall i int :: 0 <= i && i < len(a) ==> !in(b, a[i])
+//@ spec func keeps(before []string, after []string, rm []string) bool = forall k int :: 0 <= k && k < len(before) && !in(rm, before[k]) ==> in(after, before[k])
+//@ spec func extends(before []string, after []string, add []string) bool = len(after) >= len(before) &&
+//@      (forall k int :: 0 <= k && k < len(before) ==> after[k] == before[k]) &&
+//@      (forall i int :: len(before) <= i && i < len(after) ==> in(add, after[i])) && subset(add, after)
+//@ spec func sameLists(a Source, b Source) bool = a.IncludedLabels == b.IncludedLabels && a.ExcludedLabels == b.ExcludedLabels && a.GuaranteedLabels == b.GuaranteedLabels
+
+// includeLabel: the names are no longer excluded and are included; guaranteed labels and the fixed flag are untouched.
+//@ func includeLabel [C04,C12]
+//@   option elemlinks
+//@   requires wfS(s) && sepS(s, names)
+//@   ensures result.FixedLabels == s.FixedLabels && result.GuaranteedLabels == s.GuaranteedLabels
+//@   ensures nodup(result.IncludedLabels) && nodup(result.ExcludedLabels) && nodup(result.GuaranteedLabels)
+//@   ensures sep(result.IncludedLabels, result.ExcludedLabels) && sep(result.IncludedLabels, result.GuaranteedLabels) && sep(result.ExcludedLabels, result.GuaranteedLabels)
+//@   ensures sepS(result, names)
+//@   ensures subset(result.ExcludedLabels, s.ExcludedLabels)
+//@   ensures disjoint(result.ExcludedLabels, names)
+//@   ensures keeps(s.ExcludedLabels, result.ExcludedLabels, names)
+//@   ensures extends(s.IncludedLabels, result.IncludedLabels, names)
+//@   ensures modifiesOnly(s.IncludedLabels)
+
+// guaranteeLabel: as includeLabel, for the guaranteed list.
+//@ func guaranteeLabel [C04,C12]
+//@   option elemlinks
+//@   requires wfS(s) && sepS(s, names)
+//@   ensures result.FixedLabels == s.FixedLabels && result.IncludedLabels == s.IncludedLabels
+//@   ensures nodup(result.IncludedLabels) && nodup(result.ExcludedLabels) && nodup(result.GuaranteedLabels)
+//@   ensures sep(result.IncludedLabels, result.ExcludedLabels) && sep(result.IncludedLabels, result.GuaranteedLabels) && sep(result.ExcludedLabels, result.GuaranteedLabels)
+//@   ensures sepS(result, names)
+//@   ensures subset(result.ExcludedLabels, s.ExcludedLabels)
+//@   ensures disjoint(result.ExcludedLabels, names)
+//@   ensures keeps(s.ExcludedLabels, result.ExcludedLabels, names)
+//@   ensures extends(s.GuaranteedLabels, result.GuaranteedLabels, names)
+//@   ensures modifiesOnly(s.GuaranteedLabels)
+
+// maybeIncludeLabel: nothing is un-excluded; the included list only grows, by names.
+//@ func maybeIncludeLabel [C04,C12]
+//@   option elemlinks
+//@   requires wfS(s) && sepS(s, names)
+//@   ensures result.FixedLabels == s.FixedLabels && result.ExcludedLabels == s.ExcludedLabels && result.GuaranteedLabels == s.GuaranteedLabels
+//@   ensures nodup(result.IncludedLabels) && nodup(result.ExcludedLabels) && nodup(result.GuaranteedLabels)
+//@   ensures sep(result.IncludedLabels, result.ExcludedLabels) && sep(result.IncludedLabels, result.GuaranteedLabels) && sepS(result, names)
+//@   ensures len(result.IncludedLabels) >= len(s.IncludedLabels)
+//@   ensures forall k int :: 0 <= k && k < len(s.IncludedLabels) ==> result.IncludedLabels[k] == s.IncludedLabels[k]
+//@   ensures forall i int :: len(s.IncludedLabels) <= i && i < len(result.IncludedLabels) ==> in(names, result.IncludedLabels[i])
+//@   ensures forall k int :: 0 <= k && k < len(names) && !in(s.ExcludedLabels, names[k]) ==> in(result.IncludedLabels, names[k])
+//@   ensures modifiesOnly(s.IncludedLabels)
+//@   loop 1 invariant 0 <= iter1 && iter1 <= len(names) && modifiesOnly(old(s.IncludedLabels))
+//@   loop 1 invariant s.FixedLabels == old(s.FixedLabels) && s.ExcludedLabels == old(s.ExcludedLabels) && s.GuaranteedLabels == old(s.GuaranteedLabels)
+//@   loop 1 invariant nodup(s.IncludedLabels) && nodup(s.ExcludedLabels) && nodup(s.GuaranteedLabels)
+//@   loop 1 invariant sameBase(s.IncludedLabels, old(s.IncludedLabels)) || fresh(s.IncludedLabels)
+//@   loop 1 invariant len(s.IncludedLabels) >= old(len(s.IncludedLabels))
+//@   loop 1 invariant forall k int :: 0 <= k && k < old(len(s.IncludedLabels)) ==> s.IncludedLabels[k] == old(s.IncludedLabels[k]) && old(s.IncludedLabels)[k] == old(s.IncludedLabels[k])
+//@   loop 1 invariant forall i int :: old(len(s.IncludedLabels)) <= i && i < len(s.IncludedLabels) ==> in(names, s.IncludedLabels[i])
+//@   loop 1 invariant forall k int :: 0 <= k && k < iter1 && !in(s.ExcludedLabels, names[k]) ==> in(s.IncludedLabels, names[k])
+
+// restrictIncludedLabels / restrictGuaranteedLabels: the list becomes its intersection with names; nothing else changes.
+//@ func restrictIncludedLabels [C04,C12]
+//@   option elemlinks
+//@   requires wfS(s) && sepS(s, names)
+//@   ensures result.FixedLabels == s.FixedLabels && result.ExcludedLabels == s.ExcludedLabels && result.GuaranteedLabels == s.GuaranteedLabels
+//@   ensures nodup(result.IncludedLabels) && nodup(result.ExcludedLabels) && nodup(result.GuaranteedLabels)
+//@   ensures sep(result.IncludedLabels, result.ExcludedLabels) && sep(result.IncludedLabels, result.GuaranteedLabels) && sepS(result, names)
+//@   ensures subset(result.IncludedLabels, s.IncludedLabels)
+//@   ensures subset(result.IncludedLabels, names)
+//@   ensures forall k int :: 0 <= k && k < len(s.IncludedLabels) && in(names, s.IncludedLabels[k]) ==> in(result.IncludedLabels, s.IncludedLabels[k])
+//@   ensures modifiesNone(names)
+//@   loop 1 invariant 0 <= iter1 && iter1 <= len(s.IncludedLabels) && modifiesNone(names) && s == old(s) && fresh(todo)
+//@   loop 1 invariant forall i int :: 0 <= i && i < len(todo) ==> !in(names, todo[i]) && in(s.IncludedLabels, todo[i])
+//@   loop 1 invariant forall k int :: 0 <= k && k < iter1 && !in(names, s.IncludedLabels[k]) ==> in(todo, s.IncludedLabels[k])
+
+//@ func restrictGuaranteedLabels [C04,C12]
+//@   option elemlinks
+//@   requires wfS(s) && sepS(s, names)
+//@   ensures result.FixedLabels == s.FixedLabels && result.ExcludedLabels == s.ExcludedLabels && result.IncludedLabels == s.IncludedLabels
+//@   ensures nodup(result.IncludedLabels) && nodup(result.ExcludedLabels) && nodup(result.GuaranteedLabels)
+//@   ensures sep(result.GuaranteedLabels, result.ExcludedLabels) && sep(result.IncludedLabels, result.GuaranteedLabels) && sepS(result, names)
+//@   ensures subset(result.GuaranteedLabels, s.GuaranteedLabels)
+//@   ensures subset(result.GuaranteedLabels, names)
+//@   ensures forall k int :: 0 <= k && k < len(s.GuaranteedLabels) && in(names, s.GuaranteedLabels[k]) ==> in(result.GuaranteedLabels, s.GuaranteedLabels[k])
+//@   ensures modifiesNone(names)
+//@   loop 1 invariant 0 <= iter1 && iter1 <= len(s.GuaranteedLabels) && modifiesNone(names) && s == old(s) && fresh(todo)
+//@   loop 1 invariant forall i int :: 0 <= i && i < len(todo) ==> !in(names, todo[i]) && in(s.GuaranteedLabels, todo[i])
+//@   loop 1 invariant forall k int :: 0 <= k && k < iter1 && !in(names, s.GuaranteedLabels[k]) ==> in(todo, s.GuaranteedLabels[k])
+
+// excludeLabel: the names become excluded and leave the included and guaranteed lists.
+//@ func excludeLabel [C04,C12]
+//@   option elemlinks
+//@   requires wfS(s) && sepS(s, names)
+//@   ensures result.FixedLabels == s.FixedLabels
+//@   ensures nodup(result.IncludedLabels) && nodup(result.ExcludedLabels) && nodup(result.GuaranteedLabels)
+//@   ensures sep(result.IncludedLabels, result.ExcludedLabels) && sep(result.IncludedLabels, result.GuaranteedLabels) && sep(result.ExcludedLabels, result.GuaranteedLabels)
+//@   ensures sepS(result, names)
+//@   ensures extends(s.ExcludedLabels, result.ExcludedLabels, names)
+//@   ensures subset(result.IncludedLabels, s.IncludedLabels) && disjoint(result.IncludedLabels, names) && keeps(s.IncludedLabels, result.IncludedLabels, names)
+//@   ensures subset(result.GuaranteedLabels, s.GuaranteedLabels) && disjoint(result.GuaranteedLabels, names) && keeps(s.GuaranteedLabels, result.GuaranteedLabels, names)
+//@   ensures modifiesOnly(s.ExcludedLabels)
+//@   loop 1 invariant s.FixedLabels == old(s.FixedLabels) && s.IncludedLabels == old(s.IncludedLabels) && s.GuaranteedLabels == old(s.GuaranteedLabels)
+//@   loop 1 invariant nodup(s.ExcludedLabels) && (sameBase(s.ExcludedLabels, old(s.ExcludedLabels)) || fresh(s.ExcludedLabels)) && extends(old(s.ExcludedLabels), s.ExcludedLabels, names)
+
+// excludeAllLabels only records a reason: the label lists and the fixed flag are unchanged.
+//@ func excludeAllLabels [C04,C12]
+//@   ensures sameLists(result, s) && result.FixedLabels == s.FixedLabels && modifiesNone(s.IncludedLabels)
+
+// walkNode is the recursive dispatcher of the analysis. Its contract is TRUSTED (listed as an assumption): the
+// sources it returns are well-formed and their label lists were allocated by the call itself (they are built from
+// nil by appendToSlice), so they share no array with the query's own label lists (Grouping, MatchingLabels, ...).
+//@ spec func freshLists(s Source) bool = fresh(s.IncludedLabels) && fresh(s.ExcludedLabels) && fresh(s.GuaranteedLabels)
+//@ func walkNode [C04,C12]
+//@   trusted
+//@   ensures forall i int :: 0 <= i && i < len(result) ==> wfS(result[i]) && freshLists(result[i])
+
+// Aggregations. by(L): the result carries only labels of L - a label not in L cannot be present, and a label of L
+// the input could carry stays possible; without(L): the labels of L are gone and every other label is as before.
+// Guaranteed labels never grow. Each fact is asserted where the source is handed on (the append to src).
+//@ func parseAggregation [C04,C12]
+//@   option elemlinks split
+//@   requires n != nil
+//@   ghost res []Source
+//@   after call walkNode set res = result
+//@   loop 1 assumed invariant forall j int :: iter1 <= j && j < len(res) ==> wfS(res[j]) && sepS(res[j], n.Grouping)
+//@   loop 1 invariant 0 <= iter1 && iter1 <= len(res) && n == old(n)
+//@   at call append#1 assert !n.Without ==> s.FixedLabels
+//@   at call append#1 assert subset(s.GuaranteedLabels, res[iter1-1].GuaranteedLabels)
+//@   at call append#1 assert !n.Without ==> subset(s.GuaranteedLabels, n.Grouping)
+//@   at call append#1 assert !n.Without ==> subset(s.IncludedLabels, n.Grouping)
+//@   at call append#1 assert n.Without ==> disjoint(s.GuaranteedLabels, n.Grouping)
+//@   at call append#1 assert !n.Without ==> (forall x string :: canHave(s, x) ==> in(n.Grouping, x))
+//@   at call append#1 assert n.Without ==> (forall x string :: in(n.Grouping, x) ==> !canHave(s, x))
+//@   at call append#1 assert n.Without ==> (forall x string :: !in(n.Grouping, x) && canHave(res[iter1-1], x) ==> canHave(s, x))
+//@   at call append#1 assert !n.Without ==> (forall x string :: in(n.Grouping, x) && canHave(res[iter1-1], x) ==> canHave(s, x))
+
+// FindPosition only computes a position inside the query text for messages; under contract so that callers use its
+// (empty) contract and write set instead of its body.
+//@ func FindPosition [C04,C12]
+//@   ensures true
